@@ -12,7 +12,8 @@ def hybridOp (op : String) (j : Json) : Except String Json := do
     let ft ← jTable (← fld j "f"); let gt ← jTable (← fld j "g")
     let x0 ← jRat (← fld j "x0"); let L ← jRat (← fld j "load")
     let full ← jBool (← fld j "full"); let anyFull ← jBool (← fld j "any_full")
-    -- pull protocol: g x0, then f p, then g (f p)
+    let rb ← jBool (← fld j "rebalance")
+    -- pull protocol: g x0, then f p, then g (f p), then f of the rebalanced shaft power
     match gt.get? x0 with
     | none => return needJ "g" x0
     | some s1 =>
@@ -20,10 +21,26 @@ def hybridOp (op : String) (j : Json) : Except String Json := do
       match ft.get? p with
       | none => return needJ "f" p
       | some e2 =>
-        if anyFull && (gt.get? e2).isNone then return needJ "g" e2
-        let r := step ft.fn gt.fn x0 L full anyFull
+        if anyFull then
+          match gt.get? e2 with
+          | none => return needJ "g" e2
+          | some s2 =>
+            let p' := if full then L else s2
+            if rb && (ft.get? p').isNone then return needJ "f" p'
+        let r := step ft.fn gt.fn x0 L full anyFull rb
         return obj [("elec_in", ratJ r.elecIn), ("shaft_out", ratJ r.shaftOut), ("elec_used", ratJ r.elecUsed),
                     ("shaft_used", ratJ r.shaftUsed)]
+  | "hybrid.step_balancing" =>
+    let ft ← jTable (← fld j "f"); let gt ← jTable (← fld j "g")
+    let xb ← jRat (← fld j "xb")
+    match gt.get? xb with
+    | none => return needJ "g" xb
+    | some p =>
+      if (ft.get? p).isNone then return needJ "f" p
+      -- the final state depends on the share of the last electric pass only
+      let r := stepBalancing ft.fn gt.fn xb xb true
+      return obj [("elec_in", ratJ r.elecIn), ("shaft_out", ratJ r.shaftOut), ("elec_used", ratJ r.elecUsed),
+                  ("shaft_used", ratJ r.shaftUsed)]
   | "hybrid.same_machines" =>
     return Json.bool (sameMachines (← jNats (← fld j "elec")) (← jNats (← fld j "mech")))
   | _ => throw s!"unknown op {op}"
